@@ -297,14 +297,26 @@ impl Array4 {
     /// Deserialize Array4 from HLL mode bytes
     ///
     /// Expects full HLL preamble (40 bytes) followed by packed 4-bit data and optional aux map.
+    /// The register array is present in compact and in updatable images alike; only the aux
+    /// map differs: a list of `aux_count` pairs (compact) or a hash table of `1 << lg_aux_arr`
+    /// ints with empty slots (updatable).
     pub fn deserialize(
         mut cursor: SketchSlice,
         cur_min: u8,
         lg_config_k: u8,
+        lg_aux_arr: u8,
         compact: bool,
         ooo: bool,
     ) -> Result<Self, Error> {
         let num_bytes = 1 << (lg_config_k - 1); // k/2 bytes for 4-bit packing
+        let k = 1u32 << lg_config_k;
+
+        // Register values never exceed 63, so neither does cur_min.
+        if cur_min > 63 {
+            return Err(Error::deserial(format!(
+                "cur_min must be at most 63, got {cur_min}"
+            )));
+        }
 
         // Read HIP estimator values from preamble
         let hip_accum = cursor
@@ -320,49 +332,103 @@ impl Array4 {
         let aux_count = cursor
             .read_u32_le()
             .map_err(insufficient_data("aux_count"))?;
+        if aux_count > k {
+            return Err(Error::deserial(format!(
+                "aux_count {aux_count} exceeds the number of registers {k}"
+            )));
+        }
 
         // Read packed 4-bit byte array
         let mut data = vec![0u8; num_bytes];
-        if !compact {
-            cursor
-                .read_exact(&mut data)
-                .map_err(insufficient_data("data"))?;
-        } else {
-            cursor.advance(num_bytes as u64);
-        }
+        cursor
+            .read_exact(&mut data)
+            .map_err(insufficient_data("data"))?;
 
-        // Read aux map if present
-        let mut aux_map = None;
-        if aux_count > 0 {
-            let mut aux = AuxMap::new(lg_config_k);
-            for i in 0..aux_count {
-                let coupon = cursor.read_u32_le().map_err(|_| {
-                    Error::insufficient_data(format!(
-                        "expected {aux_count} aux coupons, failed at index {i}",
-                    ))
-                })?;
-                let slot = get_slot(coupon) & ((1 << lg_config_k) - 1);
-                let value = get_value(coupon);
-                aux.insert(slot, value);
-            }
-            aux_map = Some(aux);
-        }
-
-        // Create estimator and restore state
         let mut estimator = HipEstimator::new(lg_config_k);
         estimator.set_hip_accum(hip_accum);
         estimator.set_kxq0(kxq0);
         estimator.set_kxq1(kxq1);
         estimator.set_out_of_order(ooo);
 
-        Ok(Self {
+        let mut array = Self {
             lg_config_k,
             bytes: data.into_boxed_slice(),
             cur_min,
             num_at_cur_min,
-            aux_map,
+            aux_map: None,
             estimator,
-        })
+        };
+
+        // Read the aux map
+        if aux_count > 0 {
+            let stored = if compact {
+                aux_count
+            } else {
+                let lg_aux_arr = if lg_aux_arr == 0 {
+                    super::aux_map::lg_aux_arr_ints(lg_config_k)
+                } else {
+                    lg_aux_arr
+                };
+                if lg_aux_arr > lg_config_k {
+                    return Err(Error::deserial(format!(
+                        "aux array of 2^{lg_aux_arr} ints is too large for lg_k {lg_config_k}"
+                    )));
+                }
+                1u32 << lg_aux_arr
+            };
+            let mut aux = AuxMap::new(lg_config_k);
+            let mut num_pairs = 0u32;
+            for i in 0..stored {
+                let coupon = cursor.read_u32_le().map_err(|_| {
+                    Error::insufficient_data(format!(
+                        "expected {stored} aux entries, failed at index {i}",
+                    ))
+                })?;
+                if coupon == 0 && !compact {
+                    continue; // empty slot of an updatable aux table
+                }
+                let slot = get_slot(coupon) & (k - 1);
+                let value = get_value(coupon);
+                // An exception belongs to a register holding AUX_TOKEN, does not fit a nibble,
+                // and appears once.
+                if array.get_raw(slot) != AUX_TOKEN
+                    || (value as u32) < cur_min as u32 + AUX_TOKEN as u32
+                    || value > 63
+                    || aux.get(slot).is_some()
+                {
+                    return Err(Error::deserial(format!(
+                        "invalid aux entry (slot {slot}, value {value})"
+                    )));
+                }
+                aux.insert(slot, value);
+                num_pairs += 1;
+            }
+            if num_pairs != aux_count {
+                return Err(Error::deserial(format!(
+                    "expected {aux_count} aux entries, found {num_pairs}"
+                )));
+            }
+            array.aux_map = Some(aux);
+        }
+
+        // Every AUX_TOKEN needs its exception and num_at_cur_min must match the registers:
+        // updates rely on both.
+        let mut num_tokens = 0u32;
+        let mut num_zero_nibbles = 0u32;
+        for slot in 0..k {
+            match array.get_raw(slot) {
+                AUX_TOKEN => num_tokens += 1,
+                0 => num_zero_nibbles += 1,
+                _ => {}
+            }
+        }
+        if num_tokens != aux_count || num_zero_nibbles != num_at_cur_min {
+            return Err(Error::deserial(
+                "register array is inconsistent with aux_count / num_at_cur_min",
+            ));
+        }
+
+        Ok(array)
     }
 
     /// Serialize Array4 to bytes
